@@ -33,6 +33,8 @@ CLAIMED = {
          "Not proved: termination of the parseValue/parseArray/parseObject recursion as a whole (each level returns a strictly shorter rest, no measure is generated across the recursion). Not decidable by this technique: exhaustion of the goroutine stack by deeply nested documents or cyclic values (function contracts have no model of stack growth; recursion depth is bounded only by input length), the reflection-driven encoder/decoder construction, encoders, Unmarshaler/Marshaler callbacks, float parsing (strconv)."),
  "C10": ("Partial: the read side of the ownership rule for the code under contract: every scanner, parser and integer decoder has the frame 'modifies nothing' (integer decoders: only the target word), so no store they execute can land in the input buffer (one frame obligation per store and per callee); Tokenizer.Next writes only the tokenizer, its scope stack or memory that did not exist before the call, which the representation invariant separates from the input (lemma next-frame-excludes-input); values handed out by the scanners and the tokenizer are windows of the input (zero-copy is the only sharing).",
          "Not under contract: copies made for strings/Numbers/RawMessages without zero-copy flags (decodeString/decodeBytes and the unsafe conversions), the Decoder's read buffer reuse, pooled encoder buffers, stability of results across later calls and goroutines (whole-history statements)."),
+ "C11": ("Partial: Decoder.readValue (the framing loop behind Decode) against a byte stream in ghost state whose reader may deliver any number of bytes per call and any error when it delivers fewer: under the representation invariant decInv (the unread window is the tail of the buffer; InputOffset equals the stream position of the first unread byte; the buffer does not overlap the Decoder; no internal fast-path flag is set between calls), which every return re-establishes, for every chunking and every reader error: no panic, every write stays in the Decoder, its current buffer or freshly allocated memory (loop frame checked write by write); InputOffset never decreases; a returned value is a window of the buffer ending where the unread window begins; a number is returned only when a following byte, skipped whitespace, EOF or a reader error shows that it is complete (the defect fixed in d4b3ac2 was found by this clause); once the reader has reported an error nothing more is read; the refill loop terminates (variant on unread stream length and the error state). skipSpacesN's count is exact (fix 88d3b08).",
+         "Not proved: that the buffered bytes equal the stream bytes across compaction and growth (content invariant: discharged on half of the loop paths only, therefore dropped - window arithmetic is proved, byte contents are not), equality of the value stream with encoding/json's, Decode's use of Parse, Buffered. Assumed: io.ReadFull's contract over the ghost stream; streams shorter than 1 TiB; soundness of the fast-path flags for the window handed to parseValue (assumed at that call, see C05)."),
  "C17": ("Partial, per call: Tokenizer.Next under the representation invariant tokInv (scope stack well formed and separate from the tokenizer and from the input), which Reset establishes and every successful Next re-establishes: no panic for any input; once Err is set Next returns false and changes nothing; a successful Next returns a non-empty Value that is a window of the input ending exactly where the remaining input begins (strict progress); Delim is set exactly for the six delimiter bytes; Kind follows the first byte of the token; for scalars Depth/Index/IsKey equal the stack depth, the top sibling counter minus one and the pending-key flag; '{'/'[' push one level, '}'/']' pop one level of the matching type and clear the pending key, ',' increments the sibling counter and re-arms the key flag inside objects, ':' clears it; Next writes only the tokenizer, its scope stack or memory that did not exist before the call (frame obligations), which with tokInv excludes the input bytes (lemma). Stack methods, Kind/Remaining and the RawValue class predicates equal their definitions.",
          "Not under contract: the closed statement about whole token streams (concatenation equals the compacted document; agreement with encoding/json's token stream) - an induction over calls that is argued from the per-call contract, not proved; Int/Uint/Float/String value accessors beyond parseInt/parseUint (C02); stack.push's append (trusted contract) and what sync.Pool.Get hands out (assumed: well-formed private stacks of any length; acquireStack's truncation is verified); the type and counter of the freshly pushed entry as seen after Next returns. Trusted: the tokenizer's memory is only reached through the receiver inside Next (unpacked receiver)."),
  "C19": ("Partial: seen-field bitmap sizing and indexing (makeFieldset/has/set), MessageRewriter.Rewrite panic-freedom and termination for every rewriter length and every field number the wire allows, Parse's field windows, EncodeTag/DecodeTag inverse.",
@@ -45,7 +47,6 @@ NOT_APPLICABLE = {
 
 NOT_YET = {
  "C01": "not built yet (json encoders): no contract is claimed until its obligations discharge",
- "C11": "not built yet (json.Decoder framing)",
  "C14": "not built yet (json flags)",
  "C15": "not built yet (json.Append prefix/capacity obliviousness)",
 }
